@@ -13,6 +13,8 @@ def explore(run, lean):
     run.assumptions.append("virtual time: sleep(p) wakes exactly p ticks later; real-clock drift (execution time per cycle) is not modelled")
     ROUND6_RULE = "; a subclass whose QUEUE_SIZE is above the base class's, filled to its own capacity (the next post is rejected and never fires)"
     run.extra["rule"] += ROUND6_RULE
+    ROUND8_RULE = '; a subclass capacity on an object that is configured but never started (round 8)'
+    run.extra["rule"] = run.extra.get("rule", "") + ROUND8_RULE
 
 
 def replay(case):
